@@ -36,6 +36,10 @@ def local_cases(draw, tier, families):
     c = dict(dim=dim, cost=spec, x0=x0,
              xtol=draw(st.sampled_from([1e-4, 1e-4, 1e-2, 1e-6])), ftol=draw(st.sampled_from([1e-4, 1e-4, 1e-2, 1e-7])),
              maxiter=draw(st.sampled_from([None, None, 5, 30, 100])), maxfun=draw(st.sampled_from([None, None, 20, 80])))
+    if draw(st.integers(0, 5)) == 0:
+        # tolerances the run cannot meet within the default budget (200 x dimension): the run ends on the defaults
+        c.update(xtol=1e-12, ftol=1e-12, maxiter=None, maxfun=None)     # (both: with only one given, today's scipy lifts the other)
+        c['default_budget'] = True
     if draw(st.integers(0, 2)) == 0:
         c['adaptive'] = True             # Nelder-Mead only
     if dim >= 2 and draw(st.integers(0, 2)) == 0:
@@ -68,6 +72,7 @@ def run_nm(case, ctx):
     rx, rf, rit, rcalls, rwarn = refs.nelder_mead(f, x0, case['xtol'], case['ftol'], case['maxiter'], case['maxfun'], trace,
                                                   zdelt=(0.05 ** 2) * 0.1, adaptive=adaptive)
     if adaptive: ctx.label('adaptive')
+    if case.get('default_budget') and rwarn: ctx.label('ended-on-the-default-budget')
     ctx.label('cost:' + case['cost']['fam'])
     if haszero: ctx.label('x0-has-zero')
     # --- class API, step by step
@@ -126,7 +131,11 @@ def run_nm(case, ctx):
         # result to rounding, unless a decisive comparison is close enough to go the other way (near-tie guard)
         margins = []
         zx, zf, zit, zcalls, zwarn = refs.nelder_mead(f, x0, case['xtol'], case['ftol'], case['maxiter'], case['maxfun'], None, margins)
-        if margins and min(margins) < 1e-4:
+        if case['xtol'] < 1e-9 or case['ftol'] < 1e-9:
+            # one ulp in the initial simplex against tolerances of 1e-12: the iteration at which the simplex has shrunk
+            # enough is not determined to the iteration
+            ctx.exclude('x0 with zeros vs scipy zdelt at tolerances below 1e-9')
+        elif margins and min(margins) < 1e-4:
             ctx.exclude('near-tie (x0 with zeros vs scipy zdelt)')
         else:
             ctx.expect(int(it) == zit and int(fc) == zcalls, 'C08.nm_counts',
